@@ -56,11 +56,13 @@ CLAIMED = {
         'DESIGN.md §2 C03'),
     'C04': (
         'differential testing of macro.eval against the checked macro.expand on argument/premise triples harvested from '
-        'replayed library proofs and on their mutations',
+        'replayed library proofs, on their mutations, and on generated calls (nat macros at several numeric types; '
+        'apply_theorem_for with higher-order instantiations from a lambda-term grammar)',
         'Exploration. Every macro step of the final proof of (a sample of / all) library theorems with recorded steps is '
         're-run two ways in its own theory context: one-step evaluation, and expansion checked by theory.check_proof at the '
         'default trust level behind placeholder premises; mutated triples (premises permuted, dropped, duplicated, '
-        'weakened, replaced; theorem names and term arguments replaced) probe inputs no recorded proof contains. Covers '
+        'weakened, replaced; theorem names and term arguments replaced) probe inputs no recorded proof contains; 1600 '
+        'generated apply_theorem_for calls instantiate every nat-theory theorem with a function-typed schematic variable. Covers '
         'the macros the library uses (18 in the quick corpus); others are uncovered and listed in the evidence.',
         'Both paths are the repository\'s own code (differential oracle); comparison of sequents by the independent '
         'alpha-equivalence of vlib/ref.py. Inputs on which no expansion is produced are outside the statement.',
@@ -87,17 +89,20 @@ CLAIMED = {
     'C13': (
         'Hypothesis-generated editing histories (recorded steps, search suggestions, perturbations; live state or copy) '
         'over ProofState with invariants checked after every completed operation',
-        'Exploration. Walks start from library theorems with recorded proofs (theories from logic upwards); after every '
+        'Exploration. Walks start from library theorems with recorded proofs (theories from logic upwards), from 21 '
+        'generated goals (suggestions and perturbations with small indices) and from a small corpus of hand-written '
+        'walks that Hypothesis mutates; after every '
         'completed op a full re-check must succeed with gaps = sorry lines, the last line must be the original sequent, '
         'ids must equal positions and citations must name earlier visible lines, a complete proof must pass with gaps '
         'disallowed, export_proof/parse_proof must give identical exported lines and the same check result, and the '
         'fingerprints of all earlier copies must be unchanged.',
-        'Trusted: the structural checks in vlib/edit_lib.py; the kernel checker for re-checks. Goals are library goals.',
+        'Trusted: the structural checks in vlib/edit_lib.py; the kernel checker for re-checks.',
         'DESIGN.md §2 C13, §5'),
     'C14': (
         'every entry of search_method on sampled (state, gap, facts) queries applied to a copy with open parameters '
         'supplied; effect compared with the advertisement',
-        'Exploration. States are prefixes of recorded library proofs; each returned suggestion must apply or ask for named '
+        'Exploration. States are prefixes of recorded library proofs and generated goals, in a third of the cases '
+        'followed by a short walk of editing operations; each returned suggestion must apply or ask for named '
         'parameters (never fail outright), leave only advertised goals open, close the gap when it advertises none, and '
         'produce the advertised facts.',
         'Trusted: parameter supply of vlib/edit_lib.py (fresh names, variables/numerals of the required type); failures '
@@ -201,7 +206,8 @@ CLAIMED = {
         'DESIGN.md §2 C19'),
     'C20': (
         'Hypothesis while-programs with template and mutated invariants against a reference interpreter; VC strings against '
-        'a reference reader and the repo parser; HOL-level eval_Sem / vcg theorems against the interpreter and the kernel',
+        'a reference reader and the repo parser; HOL-level eval_Sem / vcg theorems against the interpreter and the kernel; '
+        'program texts through imperative/parser.py against an independent reading of the concrete syntax',
         'Exploration. ~6000 cases: loop-free wp(c,Q) in s iff Q in exec(c,s) on 30 states; programs with annotated loops: '
         'all VCs true on sampled and visited states (confirmed valid by z3 before a run counts against the property) implies '
         'every terminating run from a pre-state ends in a post-state; every shown VC / invariant / guard must mean the same as '
